@@ -485,7 +485,11 @@ def get_Efermi(obj, epsilon=None):
 
     # For smeared systems we have to find the root of an objective function
     if occ.smearing > 0:
-        return root_scalar(electron_root, bracket=(float(xp.min(e_occ)), float(xp.max(e_occ)))).root
+        # Widen the bracket by a multiple of the smearing width, for narrow spectra the objective function
+        # has no sign change between the minimal and maximal eigenenergy
+        delta = 40 * occ.smearing
+        bracket = (float(xp.min(e_occ)) - delta, float(xp.max(e_occ)) + delta)
+        return root_scalar(electron_root, bracket=bracket).root
 
     if obj.Z is None:
         log.warning("The SCF object has no unoccupied energies, return the maximum energy instead.")
